@@ -1,4 +1,4 @@
-CONSTANTS Threads = {"t1", "t2"}  Keys = {"k1", "k2"}  Limit = 2  MaxOps = 5  NoOne = "none"
+CONSTANTS Threads = {"t1", "t2"}  Keys = {"k1", "k2", "k3"}  Limit = 2  MaxOps = 5  NoOne = "none"
           HoldMutex = TRUE  InitKeys = {"k1"}
 SPECIFICATION Spec
 INVARIANT NoRaceError
